@@ -11,7 +11,8 @@ CONSTANTS Positions, Shapes, Indirections
 
 VARIABLES pn, sn, ind
 vars == <<pn, sn, ind>>
-Init == pn \in Positions /\ sn \in Shapes /\ ind \in Indirections /\ ValidMember(pn, ind)
+Init == \/ pn \in Positions /\ sn \in Shapes /\ ind \in Indirections /\ ValidMember(pn, ind)
+        \/ pn = "arity" /\ sn \in ArityNames /\ ind = "direct"            \* the Arity family rides along
 Next == UNCHANGED vars
 
 PrintCase ==
